@@ -24,14 +24,15 @@ def run(chk):
         cases.append(([100 + i for i in range(len(perm))], arr))
     for _ in range(n_cases):
         cases.append(reorder.gen_arrivals(rng, rng.choice([0, 1, 2, 3, rng.randint(4, 12), rng.randint(10, 60)])))
-    for vals, arr in cases:
-        got, asked = reorder.run_imap(arr)
+    for ci, (vals, arr) in enumerate(cases):
+        fz = ci % 3 == 1           # a third of the cases with falsy payloads (None, 0, '', False, [], 0.0) for the values 100..105
+        got, asked = reorder.run_imap(arr, falsy=fz)
         tok = ','.join('%d:%d' % r for r in arr) or '-'
         lines.append('imap arr=' + tok)
         impl.append('out=%s yielded=%s' % (','.join(map(str, got)), ','.join(map(str, asked))))
         if got != vals:
             chk.violation('imap_equals_sequential', {'arrivals': arr[:40]}, {'got': got[:40]}, 'imap yields the sequential results in order', input_class='reorder')
-        res = reorder.run_map(arr)
+        res = reorder.run_map(arr, falsy=fz)
         lines.append('msort arr=' + tok)
         impl.append('out=%s' % ','.join(map(str, res)))
         if res != vals:
@@ -60,6 +61,33 @@ def run(chk):
                                             'first_op': sc['ops'][0]['op'], 'input': sc['ops'][0].get('input'),
                                             'elem': sc['ops'][0].get('elem'), 'lifespan': sc['ops'][0].get('worker_lifespan') is not None})
     proto_correspondence(chk, 'protocol traces vs Mpire.Proto.step', scs, obs)
+    # one generation of kept-alive workers serving ordered and unordered calls in turn, with the SAME function and parameters (nothing is
+    # sent to the workers in between that could remind them of the mode)
+    ms = []
+    for _ in range(60 if chk.tier == 'quick' else 900):
+        nj = rng.choice([1, 2, 3])
+        elem = rng.choice(['scalar', 'scalar', 'tuple', 'list', 'dict', 'str'])
+        first_ordered = rng.random() < .5
+        ops = []
+        for k in range(rng.choice([2, 3, 4])):
+            ordered = first_ordered == (k % 2 == 0)
+            ops.append({'op': rng.choice(['map', 'imap'] if ordered else ['map_unordered', 'imap_unordered']), 'n': rng.randint(2, 9), 'chunk_size': rng.choice([1, 2, 3]),
+                        'elem': elem})
+        ms.append({'seed': rng.randint(0, 10 ** 6), 'pool': {'n_jobs': nj, 'start_method': rng.choice(['fork', 'threading']), 'keep_alive': True}, 'ops': ops,
+                   'same_func': True, 'relax_shape': True})
+    run_scenarios(chk, 'kept-alive workers serving ordered and unordered calls in turn with one function (DetSim)', ms, {'C01'}, nontrivial=lambda sc, o: True,
+                  dist=lambda sc, o: {'calls': len(sc['ops']), 'elem': sc['ops'][0]['elem'], 'start': sc['pool']['start_method'], 'first': sc['ops'][0]['op']})
+    # results that overtake a slow first task wait in imap's buffer; some of them are None, 0, '', [], 0.0, False
+    bf = []
+    for _ in range(50 if chk.tier == 'quick' else 700):
+        nj = rng.choice([2, 3, 4])
+        nn = rng.randint(4, 12)
+        slow = rng.sample(range(nn // 2), rng.choice([1, 1, 2]))
+        bf.append({'seed': rng.randint(0, 10 ** 6), 'pool': {'n_jobs': nj, 'start_method': rng.choice(['fork', 'threading'])},
+                   'ops': [{'op': rng.choice(['imap', 'imap', 'map']), 'n': nn, 'chunk_size': rng.choice([1, 1, 2]), 'elem': 'scalar', 'ret': 'falsy',
+                            'dur': {'kind': 'map', 'map': {str(i): rng.choice([0.2, 0.5]) for i in slow}, 'default': 0.01}}]})
+    run_scenarios(chk, 'falsy results waiting in the reorder buffer behind a slow task (DetSim)', bf, {'C01'}, nontrivial=lambda sc, o: True,
+                  dist=lambda sc, o: {'op': sc['ops'][0]['op'], 'n_jobs': sc['pool']['n_jobs']})
     tp = gen.two_pool_scenarios(rng, 40 if chk.tier == 'quick' else 600)
     run_scenarios(chk, 'two pools at work in one process (results of both == sequential evaluation)', tp, {'C01'}, nontrivial=lambda sc, o: True,
                   dist=lambda sc, o: {'n_jobs': sc['pool']['n_jobs'], 'other_n_jobs': sc['ops'][0]['n_jobs'], 'other_lifespan': sc['ops'][0]['lifespan'],
